@@ -239,3 +239,85 @@ func VH_C01_snapshot_symbolic() {
 	}
 	verifReach("C01.symsnap.reordered", pos[0] > pos[1])
 }
+
+// after the key list is replaced, exactly the keys of the new list authenticate: an id kept
+// with a new secret or cipher stops accepting the old one
+func VH_C01_update_replaces_keys() {
+	mk := func(ids []string, ks []verifKeySpec) *list.List {
+		l := list.New()
+		for i := range ids {
+			e := MakeCipherEntry(ids[i], verifKey(ks[i].cipher, verifSecrets[ks[i].secret]), verifSecrets[ks[i].secret])
+			l.PushBack(&e)
+		}
+		return l
+	}
+	old := []verifKeySpec{{verifChoice("c0", 4), 0}, {0, 2}}
+	neu := []verifKeySpec{{verifChoice("c1", 4), verifChoice("s1", 2)}, {0, 2}}
+	cl := NewCipherList()
+	cl.Update(mk([]string{"user-0", "user-1"}, old))
+	if verifFlag("used-before-reload") {
+		s := cl.SnapshotForClientIP(netip.Addr{})
+		cl.MarkUsedByClientIP(s[0], remoteIP(&verifStreamConn{remote: &net.TCPAddr{IP: net.IPv4(203, 0, 113, 5), Port: 1}}))
+	}
+	cl.Update(mk([]string{"user-0", "user-1"}, neu))
+	nth := 0
+	try := func(k verifKeySpec) (*CipherEntry, error) {
+		conn := &verifStreamConn{name: "client", remote: &net.TCPAddr{IP: net.IPv4(203, 0, 113, 5), Port: 50000}}
+		// client salts are fixed and distinct (a random salt equal to an earlier ciphertext is a
+		// negligible-probability event outside the property)
+		buf := &verifBuf{}
+		nth++
+		w := verifNewWriterWithSalt(buf, verifKey(k.cipher, verifSecrets[k.secret]), verifFixedSaltGen{nth})
+		w.Write([]byte{1, 93, 184, 216, 34, 0, 80, 'x'})
+		conn.reads = []verifSRead{{data: buf.b}}
+		e, _, _, _, err := findAccessKey(conn, remoteIP(conn), cl, noopLogger())
+		return e, err
+	}
+	e, err := try(neu[0])
+	verifAssert("C01.update.new-key-authenticates", err == nil && e != nil && e.ID == "user-0")
+	if old[0] != neu[0] {
+		e, err = try(old[0])
+		verifAssert("C01.update.replaced-key-rejected", err != nil && e == nil)
+		verifReach("C01.update.rotated", true)
+	}
+	e, err = try(neu[1])
+	verifAssert("C01.update.kept-key-authenticates", err == nil && e != nil && e.ID == "user-1")
+}
+
+
+// the same for datagrams: after the key list is replaced, a datagram is accepted only under a
+// key of the new list
+func VH_C03_update_replaces_keys() {
+	mk := func(ids []string, ks []verifKeySpec) *list.List {
+		l := list.New()
+		for i := range ids {
+			e := MakeCipherEntry(ids[i], verifKey(ks[i].cipher, verifSecrets[ks[i].secret]), verifSecrets[ks[i].secret])
+			l.PushBack(&e)
+		}
+		return l
+	}
+	old := []verifKeySpec{{verifChoice("c0", 4), 0}, {0, 2}}
+	neu := []verifKeySpec{{verifChoice("c1", 4), verifChoice("s1", 2)}, {0, 2}}
+	cl := NewCipherList()
+	cl.Update(mk([]string{"user-0", "user-1"}, old))
+	ip := netip.AddrFrom4([4]byte{203, 0, 113, 5})
+	if verifFlag("used-before-reload") {
+		s := cl.SnapshotForClientIP(netip.Addr{})
+		cl.MarkUsedByClientIP(s[0], ip)
+	}
+	cl.Update(mk([]string{"user-0", "user-1"}, neu))
+	try := func(k verifKeySpec) (string, error) {
+		pkt := verifPack(verifKey(k.cipher, verifSecrets[k.secret]), verifSocksV4([]byte{93, 184, 216, 34}, 53, []byte("q")))
+		_, id, _, err := findAccessKeyUDP(ip, make([]byte, 128), pkt, cl, noopLogger())
+		return id, err
+	}
+	id, err := try(neu[0])
+	verifAssert("C03.update.new-key-accepted", err == nil && id == "user-0")
+	if old[0] != neu[0] {
+		_, err = try(old[0])
+		verifAssert("C03.update.replaced-key-rejected", err != nil)
+		verifReach("C03.update.rotated", true)
+	}
+	id, err = try(neu[1])
+	verifAssert("C03.update.kept-key-accepted", err == nil && id == "user-1")
+}
